@@ -29,7 +29,9 @@ CONSTANTS
   \* @type: Str;
   Mode,
   \* @type: Bool;
-  Buffered
+  Buffered,
+  \* @type: Bool;
+  WithWriteFailures
 VARIABLES
   \* @type: Str;
   wd,       \* "sleep" | "towrite" | "written" | "select" | "exited"
@@ -58,6 +60,10 @@ Tick == /\ wd = "sleep" /\ ~closed /\ round < MaxRounds
 WriteDWR == /\ wd = "towrite" /\ ~closed
             /\ i' = i + 1 /\ toPeer' = toPeer + 1 /\ wd' = "written"
             /\ UNCHANGED <<round, slot, inq, acked, closed>>
+\* the transport refuses the DWR (a temporary error, nothing accepted): the round is abandoned, the
+\* watchdog goes on with the next period (WithWriteFailures only: the R1 configurations of C13 keep it off)
+WriteFails == /\ WithWriteFailures /\ wd = "towrite" /\ ~closed
+              /\ wd' = "sleep" /\ UNCHANGED <<i, round, slot, toPeer, inq, acked, closed>>
 EnterSelect == /\ wd = "written" /\ wd' = "select" /\ UNCHANGED <<i, round, slot, toPeer, inq, acked, closed>>
 \* select: an ack is available (buffer slot); with an unbuffered channel the rendezvous is part of HandleDWA
 AckFromSlot == /\ wd = "select" /\ Buffered /\ slot
@@ -86,7 +92,7 @@ HandleDWA ==
      ELSE IF wd = "select" THEN wd' = "sleep" /\ acked' = TRUE /\ UNCHANGED slot     \* rendezvous
      ELSE UNCHANGED <<wd, slot, acked>>                                               \* dropped: nobody is receiving
   /\ UNCHANGED <<i, round, toPeer, closed>>
-Next == Tick \/ WriteDWR \/ EnterSelect \/ AckFromSlot \/ Timer \/ Peer \/ HandleDWA
+Next == Tick \/ WriteDWR \/ WriteFails \/ EnterSelect \/ AckFromSlot \/ Timer \/ Peer \/ HandleDWA
 Spec == Init /\ [][Next]_vars
 
 \* WatchdogObs at design level
